@@ -426,7 +426,7 @@ def _check(c, col, clear=True, after=None):
 
 
 def plan(tier, seed):
-    n = 1500 if tier == "quick" else 30000
+    n = 4000 if tier == "quick" else 30000
     return [{"seed": seed * 1000 + k, "n": n} for k in range(16)]
 
 
